@@ -345,6 +345,21 @@ func (m *MonC03) AfterSlash(s *SlashRecord) {
 	m.R.Rep.Class("C03.slash." + fracClass(s.Fraction))
 	m.check("slash callback", s.Idx, s.Post)
 }
+// Probe: the ledger must also be consistent after a slash of any validator by any fraction from the
+// current state (callback run on a branch).
+func (m *MonC03) Probe(idx int) {
+	fr := []string{"1", "0.5", "0.05", "0.999999999999999999"}
+	for i := 1; i < len(m.R.W.Vals) && !m.R.Halt; i++ {
+		f := math.LegacyMustNewDecFromStr(fr[(idx+i)%len(fr)])
+		rec := m.R.SlashOn(m.R.W.Ctx, m.R.W.Vals[i].Oper, f, false)
+		if rec.Err != "" || rec.Panic != "" {
+			continue
+		}
+		m.R.Rep.Class("C03.probe-slash." + fracClass(f))
+		m.check("probe slash of "+m.R.W.Name(rec.Val)+" by "+f.String(), idx, rec.Post)
+	}
+}
+
 func (m *MonC03) AfterBlock(o *BlockOutcome) {
 	for _, d := range o.Pre.AssetOrder {
 		if o.PostEnd.Assets[d].TotalTokens.LT(o.Pre.Assets[d].TotalTokens) {
